@@ -29,7 +29,7 @@ func c10Bound(n int) int { return 12*n + 5 }
 
 func genC10(t *rapid.T) c10Scenario {
 	kind := rapid.SampledFrom([]string{"hwmon", "hwmon", "file"}).Draw(t, "kind")
-	if rare(t, "cmdFan", envInt("VERIF_CMD_SHARE", 1)) {
+	if rare(t, "cmdFan", 2*envInt("VERIF_CMD_SHARE", 1)) {
 		kind = "cmd"
 	}
 	n := rapid.OneOf(rapid.IntRange(1, 50), rapid.SampledFrom([]int{1, 2, 10, 50})).Draw(t, "window")
@@ -67,7 +67,9 @@ func genC10(t *rapid.T) c10Scenario {
 	poll := tick * rapid.SampledFrom([]int{1, 1, 2, 5}).Draw(t, "pollPerTick")
 	sc := sim.LoopScenario{Fan: fan, Loop: sim.LoopSpec{Kind: "direct"}, TickMs: tick, RpmPollMs: poll, RpmWindow: n,
 		Law: sim.RpmLaw{Theta: 0, Rpm: A}, Stop: sim.StopSpec{AtMs: -1}}
-	cv := rapid.SampledFrom([]int{0, 0, 0, 3}).Draw(t, "curve")
+	cv := rapid.SampledFrom([]int{0, 0, 0, 3, 128, 255}).Draw(t, "curve")
+	// a fan whose PWM cannot be read back any more still has to be pushed when it reports 0 RPM
+	pwmReadFails := kind == "cmd" && rapid.IntRange(0, 2).Draw(t, "pwmReadFails") == 0
 	ppt := poll / tick
 	spin := 3 * n * ppt
 	raises := 1
@@ -80,14 +82,17 @@ func genC10(t *rapid.T) c10Scenario {
 	}
 	if kind == "cmd" {
 		// script based fan: small window, few raises, so that the case stays within a few hundred cycles
-		if stall > 120 {
-			stall = 120
+		if stall > 60 {
+			stall = 60
 		}
 	}
 	for i := 0; i < spin+stall; i++ {
 		s := sim.Step{Curve: cv}
 		if i == spin {
 			s.Theta, s.Rpm = ip(theta), ip(maxInt(A, 500))
+		}
+		if i >= spin && pwmReadFails {
+			s.PwmRead = sim.ReadEIO
 		}
 		sc.Steps = append(sc.Steps, s)
 	}
@@ -131,6 +136,8 @@ func runC10(t *testing.T, sc c10Scenario) verdict {
 	lastReq := -1
 	lastZero := false
 	lastRaiseReq := -1
+	spinSince := -1 // polls at the moment the device started to answer a clearly non-zero RPM
+	spinPolls := 0
 	for i, o := range res.Obs {
 		if o.Evals == 0 {
 			if endedAt < 0 {
@@ -160,6 +167,19 @@ func runC10(t *testing.T, sc c10Scenario) verdict {
 		// what the RPM device answers at this request: A before the stall, then 0 below theta
 		zero := (i < sc.SpinSteps && sc.Loop.Law.Rpm == 0) || (i >= sc.SpinSteps && req < sc.Theta)
 		lastZero = zero
+		rpmNow := sc.Loop.Law.Rpm
+		if i >= sc.SpinSteps {
+			rpmNow = maxInt(sc.Loop.Law.Rpm, 500)
+		}
+		if zero || rpmNow < 300 {
+			spinSince = -1
+		} else if spinSince < 0 {
+			spinSince = polls
+		}
+		spinPolls = 0
+		if spinSince >= 0 {
+			spinPolls = polls - spinSince
+		}
 		if !zero && i >= sc.SpinSteps && spunAtCycle < 0 {
 			spunAtCycle = i
 		}
@@ -168,9 +188,19 @@ func runC10(t *testing.T, sc c10Scenario) verdict {
 				zeroSince = polls
 			}
 			if req >= o.FanMax {
+				// (iv) at max with 0 RPM: regulation has to end within B polls, whatever the request does meanwhile
 				if stalledAtMaxSince < 0 {
 					stalledAtMaxSince = polls
 				}
+				if polls-stalledAtMaxSince > B {
+					add("stall-at-max-not-reported", fmt.Sprintf("cycle %d: request %d >= max %d with 0 RPM since %d polls (bound %d), regulation still running", i, req, o.FanMax, polls-stalledAtMaxSince, B))
+					break
+				}
+			} else {
+				stalledAtMaxSince = -1
+			}
+			if req > o.FanMax {
+				add("request-above-max-while-stalled", fmt.Sprintf("cycle %d: request %d, fan maximum %d", i, req, o.FanMax))
 			}
 			if polls-zeroSince > B {
 				if req >= o.FanMax {
@@ -182,6 +212,7 @@ func runC10(t *testing.T, sc c10Scenario) verdict {
 			}
 		} else {
 			zeroSince = -1
+			stalledAtMaxSince = -1
 		}
 		prevReq = req
 	}
@@ -190,7 +221,8 @@ func runC10(t *testing.T, sc c10Scenario) verdict {
 	}
 	if endedAt >= 0 {
 		// regulation ended: must be because the fan is stalled at max; fan handed back
-		if !lastZero {
+		// only when fan2go had the chance to know: the fan reported >= 300 RPM in more than n polls
+		if !lastZero && spinPolls > n {
 			add("regulation-ended-although-spinning", fmt.Sprintf("regulation ended at cycle %d with request %d although the fan was reporting rotation (spins from %d)", endedAt, lastReq, sc.Theta))
 		}
 		if v := restoredViolation(sc.Loop.Fan, res); v != "" {
